@@ -103,19 +103,19 @@ theorem beginCall_inv {s : St} (h : Inv s) (a : Action) (hok : callOk s a = true
     simp only [callOk, Action.cb?, Action.isRead, Bool.and_eq_true, Bool.not_eq_true', Bool.true_and] at hok
     exact begin_read_inv h cb (by simpa using hok.1) hok.2 (asyncFlush_eff (hcr cb) (hwr cb) (.readStart cb (.message room false)))
   | write cb size =>
-    simp only [callOk, Action.cb?, Action.isRead, Bool.and_eq_true, Bool.not_eq_true', Bool.false_and, Bool.not_false, Bool.and_true] at hok
+    simp only [callOk, Action.cb?, Action.isRead, Bool.not_eq_true', Bool.false_and, Bool.not_false, Bool.and_true] at hok
     exact begin_write_inv h cb (by simpa using hok) (write_eff (hc cb) (hw cb) _ cb)
   | writeTooBig cb =>
-    simp only [callOk, Action.cb?, Action.isRead, Bool.and_eq_true, Bool.not_eq_true', Bool.false_and, Bool.not_false, Bool.and_true] at hok
+    simp only [callOk, Action.cb?, Action.isRead, Bool.not_eq_true', Bool.false_and, Bool.not_false, Bool.and_true] at hok
     exact begin_write_inv h cb (by simpa using hok) ((push_eff (hc cb) (hw cb) _).of_eq (by simp [taskCbs]))
   | writeFrame cb size =>
-    simp only [callOk, Action.cb?, Action.isRead, Bool.and_eq_true, Bool.not_eq_true', Bool.false_and, Bool.not_false, Bool.and_true] at hok
+    simp only [callOk, Action.cb?, Action.isRead, Bool.not_eq_true', Bool.false_and, Bool.not_false, Bool.and_true] at hok
     exact begin_write_inv h cb (by simpa using hok) (write_eff (hc cb) (hw cb) _ cb)
   | flush cb =>
-    simp only [callOk, Action.cb?, Action.isRead, Bool.and_eq_true, Bool.not_eq_true', Bool.false_and, Bool.not_false, Bool.and_true] at hok
+    simp only [callOk, Action.cb?, Action.isRead, Bool.not_eq_true', Bool.false_and, Bool.not_false, Bool.and_true] at hok
     exact begin_write_inv h cb (by simpa using hok) ((asyncFlush_eff (hc cb) (hw cb) (.user cb)).of_eq (by simp [contCbs]))
   | close cb size =>
-    simp only [callOk, Action.cb?, Action.isRead, Bool.and_eq_true, Bool.not_eq_true', Bool.false_and, Bool.not_false, Bool.and_true] at hok
+    simp only [callOk, Action.cb?, Action.isRead, Bool.not_eq_true', Bool.false_and, Bool.not_false, Bool.and_true] at hok
     exact begin_write_inv h cb (by simpa using hok)
       ((asyncClose_eff (hc cb) (hw cb) _ (.user cb) (Or.inl ⟨cb, rfl⟩)).of_eq (by simp [contCbs]))
 
@@ -140,7 +140,7 @@ theorem rd_none_of_reader_on_stack {s : St} (h : Inv s) {cb : CbId} {t : Task} {
   | some p =>
     exfalso
     obtain ⟨c', k'⟩ := p
-    simp [owedList, rdCbs, hrd, hst, List.flatMap_cons, ht, List.countP_append, List.countP_cons] at this
+    simp [owedList, rdCbs, hrd, hst, List.flatMap_cons, ht, List.countP_append] at this
     split at this <;> omega
 
 theorem owed_clear_wr {s s1 : St} {w : WSlot} (hwr : s.wr = some w) (h1 : s1.waiters = s.waiters) (h2 : s1.wr = none)
